@@ -273,12 +273,27 @@ def materialise(cfg, base):
 
 
 # ------------------------------------------------------------------------------------------------ expectation from library components
-def expected_stats(cfg, base):
+def admissible_modes(spelling):
+    """Rule modes a budget may legitimately run under. A canonical spelling (or none) fixes the mode. For any other text the
+    property does not say what "the configured rule mode" is: tally may reject it and use the default (first_match), or read a
+    spelling that differs only in letter case / separators as the mode it obviously names - both are accepted, nothing else."""
+    if spelling is None:
+        return ["first_match"]
+    if spelling in ("first_match", "most_specific"):
+        return [spelling]
+    out = ["first_match"]
+    norm = re.sub(r"[\s\-]+", "_", spelling.strip().lower())
+    if norm in ("first_match", "most_specific") and norm not in out:
+        out.append(norm)
+    return out
+
+
+def expected_stats(cfg, base, mode=None):
     from tally.merchant_utils import get_all_rules, get_transforms, normalize_merchant
     from tally.analyzer import analyze_transactions, classify_by_sections, compute_section_totals
     from tally.section_engine import parse_sections
     H.reset_state()
-    mode = cfg["mode"] if cfg["mode"] in ("first_match", "most_specific") else "first_match"
+    mode = mode or admissible_modes(cfg["mode"])[0]
     if cfg["rules"] == "rules":
         path = R.write_scratch("c11.rules", RULES_TEXT)
     elif cfg["rules"] == "csv":
@@ -349,11 +364,21 @@ class _Scripts(html.parser.HTMLParser):
 
 def check_case(case):
     cfg = config_for(case)
+    first = None
+    for mode in admissible_modes(cfg["mode"]):
+        res = check_under_mode(case, cfg, mode)
+        if not res["violations"]:
+            return res
+        first = first or res
+    return first
+
+
+def check_under_mode(case, cfg, mode):
     base = os.path.join(R.scratch(), "c11budget")
     materialise(cfg, base)
     labels = [DEVS[i][1] for i in case["devs"]]
     viol = []
-    exp, readable = expected_stats(cfg, base)
+    exp, readable = expected_stats(cfg, base, mode)
     evals = 0
     outcomes = set()
     # ---------------- json
